@@ -151,12 +151,16 @@ def make_rdms(rng, feats):
         desc['noise'] = gen.spd(rng, 3, 10.)
     if 'unicode' in feats:
         desc['lab'] = 'Universität'
+    if 'empty' in feats:
+        desc['excluded'] = np.array([], dtype=int)     # a zero-length array is a value, not an absent one
     rd = {'subj': gen.wrap([f's{i}' for i in range(n_rdm)], cont), 'age': gen.wrap([20 + i for i in range(n_rdm)], cont),
           'w': gen.wrap([0.5 * i for i in range(n_rdm)], cont)}
     pd = {'cond': gen.wrap(names, cont), 'cat': gen.wrap([i % 2 for i in range(n_cond)], cont),
           'flag': gen.wrap([bool(i % 2) for i in range(n_cond)], cont)}
     meas = None if 'none_measure' in feats else gen.pick(rng, ['euclidean', 'squared mahalanobis'])
     r = RDMs(v, dissimilarity_measure=meas, descriptors=desc, rdm_descriptors=rd, pattern_descriptors=pd)
+    if 'empty' in feats and rng.integers(2):
+        return r.subset('subj', 'nobody')      # an object emptied by a selection without match
     if 'history' in feats:
         ops = int(rng.integers(1, 4))
         for _ in range(ops):
@@ -193,11 +197,15 @@ def make_dataset(rng, feats, temporal=False):
     desc = {'subj': 's1', 'sess': 2}
     if 'unicode' in feats:
         desc['site'] = 'Zürich'
+    if 'empty' in feats:
+        desc['excluded'] = np.array([], dtype=int)
     if temporal:
         d = TemporalDataset(m, descriptors=desc, obs_descriptors=od, channel_descriptors=cd,
                             time_descriptors={'time': np.arange(n_t) * 0.1})
     else:
         d = Dataset(m, descriptors=desc, obs_descriptors=od, channel_descriptors=cd)
+    if 'empty' in feats and rng.integers(2):
+        return d.subset_obs('run', 99)         # no observation matches
     if 'history' in feats and n_obs >= 2:
         d.sort_by('cond')
         d = d.subset_obs('run', list(dict.fromkeys(d.obs_descriptors['run']))[:2])
@@ -208,7 +216,7 @@ def make_dataset(rng, feats, temporal=False):
 
 def make_model(rng, feats, kind=None):
     kind = kind or gen.pick(rng, ['fixed', 'weighted', 'select', 'interpolate'])
-    r = make_rdms(rng, [f for f in feats if f not in ('history', 'nan', 'inf')])
+    r = make_rdms(rng, [f for f in feats if f not in ('history', 'nan', 'inf', 'empty')])   # a model needs RDMs
     if kind == 'fixed':
         return ModelFixed('fix µ' if 'unicode' in feats else 'fix', r[0]), None
     cls = {'weighted': ModelWeighted, 'select': ModelSelect, 'interpolate': ModelInterpolate}[kind]
@@ -269,7 +277,7 @@ def compare_obj(kind, a, b, theta=None):
 
 def run_history(ctx, scratch, kind):
     rng = ctx.rng
-    feats = [f for f in ('nan', 'inf', 'unicode', 'matrix', 'none_measure', 'history') if rng.integers(4) == 0]
+    feats = [f for f in ('nan', 'inf', 'unicode', 'matrix', 'none_measure', 'history', 'empty') if rng.integers(4) == 0]
     if kind == 'Result' and rng.integers(6) == 0:
         feats.append('many_models')
     if 'unicode' in feats:
